@@ -152,7 +152,7 @@ PROPS = {
             'syntax_to_semantic (the top-level loop, D18/D21/D22 desugarings): every unwrap is proved or assumed-parser, `included_iter.next().unwrap()` is proved from the assumed shape of `included`; it is entered and left with only the global scope open (also through the recursion into included files)',
             'unsupported statement kinds (cal, defcal, extern, let, old-style declarations, measure statement, version line) push exactly one NotImplementedError and yield the null statement / nothing',
         ],
-        not_decided=['syntax_to_semantic / analyze_source / parse_* (generic SourceTrait plumbing, include recursion): not verified', 'memory / termination of the recursion over trees', 'source_file.rs include handling', 'hand-written AST accessors are total except the three recorded ones (assumed; oq3_syntax is not verified here)'],
+        not_decided=['syntax_to_semantic / analyze_source / parse_* (generic SourceTrait plumbing, include recursion): not verified', 'memory / termination of the recursion over trees', 'source_file.rs include handling', 'hand-written AST accessors outside unit ASTX are total except the recorded ones (assumed); PragmaStatement::pragma_text (string slicing) has a BOUNDED stand-in in the thorough tier only (Kani on the extracted text, keyword + at most 3 ASCII bytes) — labelled bounded, never counted as proved'],
         explanation='Verus over an opaque, mechanically generated AST view (accessors may return anything unless listed as assumed-parser).',
     ),
     'C06': dict(
